@@ -17,6 +17,8 @@ pub struct GenOpts {
     pub dup_names: bool,
     /// per-mille of source files rendered with irregular layout
     pub loose_per_mille: u32,
+    /// per-mille of projects that start with one injected warning
+    pub warn_per_mille: u32,
 }
 
 impl Default for GenOpts {
@@ -31,6 +33,7 @@ impl Default for GenOpts {
             sv: true,
             dup_names: true,
             loose_per_mille: 0,
+            warn_per_mille: 0,
         }
     }
 }
@@ -152,7 +155,7 @@ pub fn draw_use(d: &mut Draw, p: &mut Project, mid: ItemId, clocked: bool, o: &G
     let consts: Vec<(ItemId, usize)> = p.all_consts().into_iter().filter(|(q, _)| c.contains(q)).collect();
     let uid = p.fresh();
     for _ in 0..4 {
-        let kind = match d.weighted(&[4, 4, 2, 2, 2, 2, 2, 2, 2, 1, 1]) {
+        let kind = match d.weighted(&[9, 4, 2, 2, 2, 2, 2, 2, 2, 1, 1]) {
             0 if !mods.is_empty() => {
                 let child = mods[d.below_usize(mods.len())];
                 let cm = p.module(child);
@@ -238,9 +241,9 @@ pub fn draw_module(d: &mut Draw, p: &mut Project, o: &GenOpts) -> ItemId {
         None
     };
     let mut ins = vec![];
-    for n in 0..d.usize_in(1, 2) {
+    for n in 0..(1 + d.weighted(&[1, 2])) {
         let k = p.fresh();
-        let default = if n > 0 && d.chance(1, 2) {
+        let default = if n > 0 && d.chance(2, 3) {
             let c = candidates(p, id);
             let consts: Vec<(ItemId, usize)> =
                 p.all_consts().into_iter().filter(|(q, _)| c.contains(q)).collect();
@@ -276,7 +279,7 @@ pub fn draw_module(d: &mut Draw, p: &mut Project, o: &GenOpts) -> ItemId {
         None
     };
     let mut clocked = d.chance(1, 3);
-    let want = d.usize_in(0, 4);
+    let want = d.usize_in(1, 4);
     // the item must exist for candidates(); push a placeholder first
     p.items.push(Item {
         id,
@@ -460,5 +463,27 @@ pub fn gen_project(d: &mut Draw, o: &GenOpts) -> Project {
         });
     }
     p.placed = true;
+    if o.warn_per_mille > 0 && d.below(1000) < o.warn_per_mille {
+        let mods = p.modules();
+        if !mods.is_empty() {
+            let m = mods[d.below_usize(mods.len())];
+            let k = p.fresh();
+            let inj = draw_warning(d, p.module(m).clocked).with_uid(k);
+            p.module_mut(m).inj.push(inj);
+        }
+    }
     p
+}
+
+/// One of the warning injections (uid 0; use `Inject::with_uid`).
+pub fn draw_warning(d: &mut Draw, clocked: bool) -> Inject {
+    match d.weighted(&[2, 2, 2, 2, 2, 1]) {
+        0 => Inject::WarnUnused(0),
+        1 => Inject::WarnShift(0),
+        2 => Inject::WarnLogical(0),
+        3 if clocked => Inject::WarnMissingReset(0),
+        4 => Inject::WarnUncovered(0),
+        5 => Inject::WarnStrAssign(0),
+        _ => Inject::WarnShift(0),
+    }
 }
